@@ -10,4 +10,5 @@ import LicenseExpr.Props.C08
 #print axioms LE.C08_contains_congr
 #print axioms LE.C08_contains_rewrite
 #print axioms LE.C08_with_parts
+#print axioms LE.C08_contains_atoms
 #print axioms LE.C08_contains_atoms_partial
